@@ -200,6 +200,10 @@ def delivery_sites(program):
             f = func_of(c)
             if f is None:
                 continue
+            # delivery happens in subscription classes (queue of the connection), not in the writer thread's task queue
+            cls = getattr(c, "_class", None)
+            if cls is None or not any(ci.node is cls for ci in [program.cls("nostr_relay.storage.base:BaseSubscription")] + program.subclasses(program.cls("nostr_relay.storage.base:BaseSubscription"), strict=True)):
+                continue
             out.append((f, c, second))
     return out
 
